@@ -945,9 +945,15 @@ def run(ctx):
                    "leaf; judged when gcc -O0 accepts it and agrees with the 6.7.9 model on every leaf; non-trivial = more "
                    "than one leaf or at least one of designator/elision/override/string/range/braced-scalar used; "
                    "distinct = distinct (type, initializer text)",
-              bounds="tier %s: scalar types %d; depth-1 shapes x rotations; depth-2 shapes; atoms<=3 (4 for depth-1 in "
-                     "thorough), designated items<=2..3, designator path<=3, <=1 range and <=1 braced scalar/string per case; "
-                     "indices of unknown-bound arrays < 3 in designators" % (ctx.tier, len(LP)))
+              bounds="tier %s: %d scalar types; depth-1 shapes (arrays [1][2][3][] of a scalar, structs of 1-3 scalar/bit-field "
+                     "members, same with trailing flexible array, unions of 2, character arrays of 6 element types) x %s scalar "
+                     "rotations with (atoms, designated items) <= %s; depth-2 shapes (arrays of depth-1 shapes, structs of 1-3 members "
+                     "from {scalar, bit-field, T[2], char[3], struct, struct with bit-field, union, anonymous struct, anonymous union}, "
+                     "unions of 2, flexible arrays of scalars/structs/arrays) with (atoms, designated items) <= %s; designator path "
+                     "<= 3, <= 1 range and <= 1 braced scalar/braced string per case, trailing-comma variant of every spelling with "
+                     "<= 1 atom, indices < 3 in designators of unknown-bound arrays" % (
+                         ctx.tier, len(LP), "2" if ctx.tier == "quick" else "9",
+                         "(3,2)" if ctx.tier == "quick" else "(4,2) or (3,3)", "(2,1)" if ctx.tier == "quick" else "(2,2) or (3,1)"))
     if tot["judged"] == 0 or len(flagcount) < 6:
         raise core.HarnessError("vacuous: judged=%d forms=%s" % (tot["judged"], sorted(flagcount)))
     if tot["dis"] + tot["refrej"] > 0.02 * tot["cases"]:
